@@ -17,6 +17,7 @@ def run(ctx: Ctx) -> list[Ob]:
     obs += r14.signed_id_keys(ctx)
     obs.append(r8.dominates_call(ctx, T + 'logic.graph.LogicalCircuit.smooth', {'len(missing_literals) > 0': True, 'isinstance(input_to_d, ConjunctionNode)': False}, 'extend', 'smoothing-conjoins', 'the (x or not x) smoothing nodes are *conjoined* with an input that misses a variable: they may be appended to the inputs of a conjunction, but an input that is itself a disjunction (or a literal) has to be wrapped in a fresh conjunction -- appended to a disjunction they become extra disjuncts and the circuit counts assignments twice'))
     obs += r13.r13f(ctx)
+    obs += r13.r13h(ctx)
     obs += r14.call_order(ctx, T + 'logic.graph.LogicalCircuit.build_circuit', 'smooth', 'prune', 'smoothing has to see the scopes of the un-pruned graph -- a variable that only occurs in a branch unit propagation removes drops out of the scope, no (x | ~x) node is added for it and the circuit integrates to the model count divided by 2^k')
     return obs
 
@@ -31,8 +32,9 @@ SPEC = PropSpec(
         "and per-variable arguments given for that variable id' clause; N1: each input-layer name of name_to_input_layer_factory "
         "('embedding', 'categorical', 'binomial', 'gaussian') builds the same-named layer class. R13c (index-space typing of hmm): `ordering` is a position-indexed table of variable ids, the per-variable arguments and everything mapped from them in order are indexed by variable id, range counters are positions, ordering[..] and loop variables over ordering are variable ids; every subscript read of a typed table uses an index of the table's own space and zip never pairs a variable-indexed table with ordering entry by entry. R10h: LogicalCircuit.smooth / prune change node inputs in place while querying node_scope; no query method of the class memoises its answers in a dict attribute (a stale scope makes smoothing add the same literal twice, and the circuit is no longer decomposable)."
         " R14b (logic circuits, smoothing): removing the element a for-loop is standing on from the list it iterates is compensated by an insertion at index 0 in the same block (or the loop iterates a copy) -- otherwise the next input of the disjunction is skipped and stays un-smoothed. R8 smoothing-conjoins: in LogicalCircuit.smooth the in-place extension of an input's own input list with smoothing nodes is unreachable unless that input is a ConjunctionNode (known from an isinstance test, not from 'it has inputs'). R14k: no arithmetic negation of a literal's variable id in the logic package (ids are 0-based: -0 == 0). R13f: a block slice T[i*K:(i+1)*K] of a table built by a two-generator comprehension requires the *inner* generator to be range(K) (tensor_train: cores are mode-major). R14c: in LogicalCircuit.build_circuit smooth() never runs after prune() (must-precede on the CFG)."
+        ' R13h: arranging items along an ordering is a lookup items[ordering[t]]; sorting zip(ordering, items) by the first component (or argsort(ordering)) arranges by the inverse permutation, which agrees only for self-inverse orderings.'
     ),
     not_decided="CP / Tucker / TT contraction formulas, HMM joint probabilities, logic-circuit semantics and model counting (numerical / run-time).",
     run=run,
-    floors={"R14b": 2, "R14c": 1, "R10h": 1, "R13c": 2, "R13a": 7, "N1": 4},
+    floors={"R13h": 1, "R14b": 2, "R14c": 1, "R10h": 1, "R13c": 2, "R13a": 7, "N1": 4},
 )
